@@ -208,6 +208,7 @@ def render(s, probes=True):
 
 def hist_cases(ctx):
     rng = ctx.rng
+    from .cborgen import nest, hx as _hx
     out = []
     n = 400 if ctx.tier == "quick" else 6000
     for i in range(n):
@@ -217,7 +218,7 @@ def hist_cases(ctx):
 
 def fault_cases(ctx):
     rng = ctx.rng
-    out = []
+    out = structured_fault_cases(ctx) + load_fault_cases(ctx)
     n = 120 if ctx.tier == "quick" else 2500
     for i in range(n):
         out.append(render(gen_history(rng, rng.choice([2, 3, 4, 6, 8, 10]))))
@@ -240,3 +241,75 @@ def shared_cases(ctx):
     big = "(arr " + " ".join(treegen.random_tree(rng, 3) for _ in range(40)) + ")"
     picks = [t for t in trees if "(tag" in t or "(map" in t][:: (20 if ctx.tier == "quick" else 3)] + [big]
     return ["%d %s" % (rng.choice([2, 4, 8, 16]), t) for t in picks]
+
+# ------------------------------------------------------------------ structured fault scenarios
+def _hist(ops):
+    """attach probes / final releases to a plain op list (handles numbered in creation order)"""
+    from vlib.props import close_history  # late import (registry defines it)
+    return close_history(ops)
+
+def structured_fault_cases(ctx):
+    """growth at every capacity boundary, copy and load of containers of every size: so that the
+    fault enumeration refuses the 1st, 2nd, 3rd ... growth request, not only the first"""
+    from .cborgen import hx as _hx
+    out = []
+    maxn = 6 if ctx.tier == "quick" else 10
+    for n in range(1, maxn):
+        out.append(["bi 0 8 1", "nia"] + ["push 1 0"] * n)
+        out.append(["bi 1 16 300", "nim", "bs 1 6162"] + ["madd 1 0 2"] * n)
+        out.append(["bs 0 6162", "nis 0"] + ["chunk 1 0"] * n)
+        out.append(["bs 1 c3a9", "nis 1"] + ["chunk 1 0"] * n)
+    for n in (1, 2, 3, 5):
+        out.append(["bi 1 8 5", "nia"] + ["push 1 0"] * n + ["copy 1"])
+        out.append(["bi 1 64 99", "nim", "bf 32 3f800000"] + ["madd 1 0 2"] * n + ["copy 1"])
+        out.append(["bs 0 00", "nis 0"] + ["chunk 1 0"] * n + ["copy 1"])
+        out.append(["bi 0 8 1", "nda %d" % n] + ["push 1 0"] * n + ["copy 1", "salloc 1"])
+        out.append(["bi 1 8 1", "bt 7 0", "bt 8 1", "copy 2", "salloc 2"])
+    return [_close(o) for o in out]
+
+LOAD_FAULT_INPUTS = [
+    [0x01], [0x39, 0x01, 0x00], [0x44, 1, 2, 3, 4], [0x65, 0x68, 0x65, 0x6C, 0x6C, 0x6F], [0xF9, 0x3C, 0x00], [0xF6],
+    [0x82, 0x01, 0x02], [0x9F, 0x01, 0x02, 0xFF], [0x9F, 0x01, 0x02, 0x03, 0x04, 0x05, 0xFF], [0xA1, 0x01, 0x02], [0xBF, 0x01, 0x02, 0x03, 0x04, 0x05, 0x06, 0xFF],
+    [0xC1, 0x01], [0xC1, 0xC2, 0x80], [0x5F, 0x41, 0x00, 0x42, 0x01, 0x02, 0x41, 0x03, 0xFF], [0x7F, 0x61, 0x61, 0x61, 0x62, 0x61, 0x63, 0xFF],
+    [0xA1, 0x01, 0x82, 0xC1, 0x02, 0x9F, 0x03, 0xFF], [0x83, 0x9F, 0xFF, 0xBF, 0xFF, 0x5F, 0xFF], [0x82, 0x01],   # truncated
+    [0x9F, 0x01, 0x1C], [0x82, 0xFF], [0x5F, 0x01, 0xFF], [0xBF, 0x01, 0xFF],                                      # malformed / syntax errors with partial trees
+    [0x82, 0x61, 0x61, 0xA2, 0x01, 0x9F, 0x02, 0x03, 0xFF, 0x04, 0xC5, 0x44, 9, 9, 9, 9],
+]
+
+def load_fault_cases(ctx):
+    from .cborgen import hx as _hx, random_enc
+    out = []
+    for b in LOAD_FAULT_INPUTS:
+        out.append(_close(["load %s" % _hx(b)]))
+    for _ in range(10 if ctx.tier == "quick" else 300):
+        e = random_enc(ctx.rng, 3)
+        if 0 < len(e.bs) <= 40:
+            out.append(_close(["load %s" % _hx(e.bs)]))
+    return out
+
+def _close(ops):
+    own, text = [], []
+    for o in ops:
+        w = o.split()
+        if w[0] in ("bi", "bf", "bc", "bs", "nis", "nda", "nia", "ndm", "nim", "nt", "bt", "get", "titem", "copy", "load"):
+            own.append(1)
+        if w[0] == "inc": own[int(w[1])] += 1
+        if w[0] == "dec": own[int(w[1])] -= 1
+        live = [h for h in range(len(own)) if own[h] > 0]
+        text.append(o + (" ? " + " ".join(map(str, live)) if live else ""))
+    for h in range(len(own)):
+        for _ in range(max(0, own[h])):
+            text.append("dec %d" % h)
+    return "; ".join(text)
+
+
+def limit_load_cases(L):
+    def gen(ctx):
+        from .cborgen import nest, hx as _hx
+        out = []
+        for k in ("tag", "arr", "arri", "mapv", "mapiv"):
+            for d in (L - 1, L, L + 1, L + 2):
+                if d >= 0:
+                    out.append(_close(["bi 0 8 1", "load %s" % _hx(nest(k, d, (0x01,))), "load %s" % _hx(nest(k, d, (0x5F, 0x41, 0x00, 0xFF)))]))
+        return out
+    return gen
